@@ -266,6 +266,9 @@ fn roundtrip_job(job: &Value) -> Value {
     let flags1 = b1.command_line_flags();
     let mut argv = vec!["bindgen".to_string()];
     argv.extend(flags1.iter().cloned());
+    // The library-side builder generates BEFORE the flags are parsed: parsing must not have side effects (created directories,
+    // environment) that the first generation could profit from.
+    let out1 = if generate { Some(gen_text(b1)) } else { None };
     // NB: builder_from_flags exits the process on a clap error: the pool reports that as a crash.
     let b2 = match bindgen::builder_from_flags(argv.into_iter()) {
         Ok((b, _, _)) => b,
@@ -273,8 +276,8 @@ fn roundtrip_job(job: &Value) -> Value {
     };
     let flags2 = b2.command_line_flags();
     let mut out = json!({"status":"ok","flags1":flags1,"flags2":flags2});
-    if generate {
-        out["out1"] = gen_text(b1);
+    if let Some(o1) = out1 {
+        out["out1"] = o1;
         out["out2"] = gen_text(b2);
     }
     out
@@ -289,13 +292,14 @@ fn flagcmp_job(job: &Value) -> Value {
         Ok(b) => b,
         Err(e) => return json!({"status":"badjob","err":e}),
     };
+    let fm = bm.command_line_flags();
+    let out_methods = gen_text(bm);   // before the CLI parser runs (see roundtrip_job)
     let bf = match bindgen::builder_from_flags(argv.into_iter()) {
         Ok((b, _, _)) => b,
         Err(e) => return json!({"status":"flags_err","err":e.to_string()}),
     };
     let ff = bf.command_line_flags();
-    let fm = bm.command_line_flags();
-    json!({"status":"ok","flags_from_flags":ff,"flags_from_methods":fm,"out_flags":gen_text(bf),"out_methods":gen_text(bm)})
+    json!({"status":"ok","flags_from_flags":ff,"flags_from_methods":fm,"out_flags":gen_text(bf),"out_methods":out_methods})
 }
 
 pub fn run_job_ext(mode: &str, job: &Value) -> Option<Value> {
